@@ -40,11 +40,17 @@ Show(e, x) == IF x.kind # "ok" THEN x
               ELSE IF e.op = "Tzdb.offset" THEN OkV([off |-> x.val])
               ELSE OkV({[d |-> p.d, s |-> p.s, ns |-> SubNs(e)] : p \in x.val})
 
+\* instants a provider can return at all: -10^8 days .. +10^8 days (inclusive); a wall-clock reading whose candidate instant lies
+\* outside cannot be answered - the query must fail (and, C15/C20: leave nothing behind in the provider)
+InstantOK(p, sub) == (p.d >= -100000000 /\ p.d < 100000000) \/ (p.d = 100000000 /\ p.s = 0 /\ sub = 0)
+Unanswerable(e, x) == e.op = "Tzdb.local" /\ x.kind = "ok" /\ \E p \in x.val : ~InstantOK(p, SubNs(e))
+
 (* ---------------- class labels: TzifClasses ---------------- *)
 ClsOf(e) ==
   IF IsQuery(e) THEN
     (IF ~OnDisk(disk, e.args.zone) THEN "unknown-zone"
      ELSE IF e.op = "Tzdb.offset" THEN OffsetCls(disk[e.args.zone], QOf(e).at, SubNs(e))
+     ELSE IF QOf(e).at.d >= 99999998 \/ QOf(e).at.d <= -99999998 THEN "local/at-the-instant-limits"
      ELSE LocalCls(disk[e.args.zone], QOf(e).at, SubNs(e)))
   ELSE "-"
 
@@ -94,16 +100,17 @@ QueryStep ==
   /\ IsQuery(E)
   /\ LET q == QOf(E)
          known == E.args.zone \in DOMAIN disk
-         exp == IF known THEN AnswerIn(cache, disk, q) ELSE [kind |-> "no-table-event"]
+         exp0 == IF known THEN AnswerIn(cache, disk, q) ELSE [kind |-> "no-table-event"]
+         exp == IF Unanswerable(E, exp0) THEN Fail ELSE exp0
          obs == Obs(E)
      IN IF known /\ exp = obs
-        THEN /\ QueryWith(q, exp) /\ (IF Classes THEN PrintT("CLS " \o ClsOf(E)) ELSE TRUE)
+        THEN /\ QueryWith(q, exp0) /\ (IF Classes THEN PrintT("CLS " \o ClsOf(E)) ELSE TRUE)
              \* the right set of instants, but not in ascending order (GetNamedTimeZoneEpochNanoseconds; disambiguation
              \* takes the first as the earlier and the last as the later): one class, whatever the position
              /\ (IF Ascending(E) THEN TRUE ELSE Report(l, E.op, "instants-not-ascending", "the instants in ascending order", E.out))
         ELSE /\ Report(l, E.op, ClsOf(E), IF known THEN Show(E, exp) ELSE exp, E.out)
              \* resync: the provider has (or has not) read the file, whatever it answered
-             /\ IF known THEN QueryWith(q, exp) ELSE UNCHANGED <<disk, cache, hist, last>>
+             /\ IF known THEN QueryWith(q, exp0) ELSE UNCHANGED <<disk, cache, hist, last>>
 Names == E.op = "Tzdb.names" /\ last' = [op |-> "names"] /\ UNCHANGED <<disk, cache, hist>>
 Check ==
   /\ E.op = "Tzdb.check"
